@@ -192,8 +192,20 @@ class Ctx(object):
         txt = re.sub(r"\(\*.*?\*\)", "", txt, flags=re.S)
         return re.findall(r"(?m)^\s*(?:Theorem|Lemma|Corollary|Example)\s+([A-Za-z0-9_']+)", txt)
 
+    def audit(self):
+        """No Axiom/Parameter/Admitted/..., no Variable/Hypothesis outside a Section, anywhere."""
+        if getattr(self, "_audited", False):
+            return
+        self._audited = True
+        rc1, o1, e1 = sh([os.path.join(VERIF, "bin", "audit")], timeout=120)
+        rc2, o2, e2 = sh([os.path.join(VERIF, "bin", "audit_sections")], timeout=120)
+        ok = rc1 == 0 and rc2 == 0
+        self.obligation("audit:no Axiom/Parameter/Admitted/admit/unchecked options in coq/ and ocaml/", ok,
+                        (o1 + o2)[-500:] if not ok else "")
+
     def coq_obligations(self, vfiles, label=None):
         """Build the given .v files; every theorem in them is one obligation."""
+        self.audit()
         targets = [v + "o" for v in vfiles]
         res = self.coq_make(targets)
         allok = True
@@ -281,6 +293,12 @@ class Ctx(object):
 
     # ------------------------------------------------------------------ finish
     def finish(self):
+        # safety net: a failed obligation that no check code turned into a violation is still a
+        # violation (the property is no longer shown to hold)
+        failed = [o for o in self.obligations if not o[1]]
+        if failed and not self.violations:
+            names = ", ".join(o[0] for o in failed[:5])
+            self.unproved(names, failed[0][2] or "obligation failed", "no search was run by the check for this obligation")
         known = load_known()
         new = []
         hit = []
